@@ -239,6 +239,9 @@ type crlSpec struct {
 	NU      string `json:"nu"` // -1y -1h +1h +1y
 	Entries int    `json:"entries"`
 	Number  int64  `json:"number"`
+	// TU: this-update time, days before the next-update time (0 = 30). Base and delta draw it
+	// independently, so a delta may be issued before or after its base; the cache stores what it is given
+	TU int `json:"thisUpdateDaysBeforeNU,omitempty"`
 }
 
 func (c crlSpec) fresh() bool { return c.NU[0] == '+' }
@@ -251,9 +254,9 @@ type bundleSpec struct {
 func (b bundleSpec) fresh() bool { return b.Base.fresh() && (b.Delta == nil || b.Delta.fresh()) }
 
 func (b bundleSpec) String() string {
-	s := fmt.Sprintf("base(%s,n=%d,e=%d)", b.Base.NU, b.Base.Number, b.Base.Entries)
+	s := fmt.Sprintf("base(%s,n=%d,e=%d,tu=%d)", b.Base.NU, b.Base.Number, b.Base.Entries, b.Base.TU)
 	if b.Delta != nil {
-		s += fmt.Sprintf("+delta(%s,n=%d,e=%d)", b.Delta.NU, b.Delta.Number, b.Delta.Entries)
+		s += fmt.Sprintf("+delta(%s,n=%d,e=%d,tu=%d)", b.Delta.NU, b.Delta.Number, b.Delta.Entries, b.Delta.TU)
 	}
 	return s
 }
@@ -263,6 +266,7 @@ func drawCRLSpec(rt *rapid.T, label string, number int64) crlSpec {
 		NU:      rp.Pick(rt, label+"NU", "-1y", "-1h", "+1h", "+1h", "+1y", "+1y"),
 		Entries: rp.Pick(rt, label+"Entries", 0, 0, 0, 1, 1, 1, 3, 3, 50, 50, 50, 400),
 		Number:  number,
+		TU:      rp.Pick(rt, label+"TU", 0, 0, 0, 10, 45, 400),
 	}
 }
 
@@ -290,7 +294,11 @@ func mintCRL(now time.Time, s crlSpec, deltaOf int64) *x509.RevocationList {
 		}
 		extra = append(extra, pkix.Extension{Id: oidDeltaCRLIndicator, Critical: true, Value: v})
 	}
-	return pki.CRL(theCA(), s.Number, nu.Add(-30*24*time.Hour), nu, s.Entries, extra)
+	days := s.TU
+	if days == 0 {
+		days = 30
+	}
+	return pki.CRL(theCA(), s.Number, nu.Add(-time.Duration(days)*24*time.Hour), nu, s.Entries, extra)
 }
 
 func mintBundle(now time.Time, b bundleSpec) (base, delta *x509.RevocationList) {
